@@ -3,6 +3,20 @@
 import glob, json, os, re
 HERE = os.path.dirname(os.path.dirname(os.path.abspath(__file__)))
 rows = []
+
+
+def hist(h):
+    """history may be a string, a dict or a list of either (builders appended in different shapes)."""
+    if isinstance(h, str):
+        return h.replace("|", "/").replace("\n", " ")
+    if isinstance(h, dict):
+        return "; ".join("%s: %s" % (k, v if isinstance(v, str) else ", ".join(map(str, v)) if isinstance(v, list) else v)
+                         for k, v in h.items()).replace("|", "/").replace("\n", " ")
+    if isinstance(h, list):
+        return " // ".join(hist(x) for x in h)
+    return str(h)
+
+
 for d in sorted(glob.glob(os.path.join(HERE, "seeded", "*"))):
     mp = os.path.join(d, "meta.json")
     if not os.path.exists(mp):
@@ -21,7 +35,7 @@ for d in sorted(glob.glob(os.path.join(HERE, "seeded", "*"))):
              and v.get("existing_tests_touched_pkgs") == "pass")
     rows.append((os.path.basename(d), pid, (m.get("summary") or "").replace("|", "/").replace("\n", " ")[:230],
                  (m.get("needs") or "").replace("|", "/").replace("\n", " ")[:200],
-                 "yes" if valid else "NOT VALIDATED", r.get("result", "not run"), ", ".join(keys[:4]), m.get("history", "")))
+                 "yes" if valid else "NOT VALIDATED", r.get("result", "not run"), ", ".join(keys[:4]), hist(m.get("history", ""))))
 out = ["## 12. Seeded changes and which checks catch them", "",
        "Each change below was written by a fresh sub-agent that saw only the property's text and a scratch worktree of",
        "/repo (nothing from /verif). `tools/seedtest.py validate` confirmed for each: the project builds, the touched",
